@@ -7,9 +7,9 @@
 (* forms, and the integral scale can be prescribed instead of the length   *)
 (* scale.                                                                  *)
 (*                                                                         *)
-(* Six independent parts share this module; a configuration selects one    *)
+(* Seven independent parts share this module; a configuration selects one  *)
 (* through INIT/NEXT (InitGraph/NextGraph, InitVariant, InitPoly, InitInt, *)
-(* InitHist/NextHist, InitTpl).  Variables of the other parts are None.    *)
+(* InitHist/NextHist, InitTpl, InitHalf).  Other parts' variables: None.   *)
 (*                                                                         *)
 (*  A  derivation graph: which function a class gets for each of the four  *)
 (*     names given the subset D it defines itself; evaluation must         *)
@@ -23,6 +23,7 @@
 (*     (len_scale, rescale, shape parameter, dim, integral_scale).         *)
 (*  F  the truncated-power-law superposition (lower truncation, rescale):  *)
 (*     exact weights of the documented two-mode closed form, mode bounds.  *)
+(*  G  Matern with half-integer shape: exp(-z) times an exact polynomial.  *)
 (*                                                                         *)
 (* Lengths in part B are integers in units of len_scale/16 ("u"); the grid *)
 (* lag k/8 * len_scale is u = 2k.  Anisotropy ratios are powers of two     *)
@@ -569,4 +570,45 @@ TplSound ==
   /\ (vc.a = Zero => vc.wlow = Zero /\ vc.wup = One /\ vc.lu = Div(vc.L, vc.s))   \* plain identity
   /\ Less(Zero, vc.vf)
   /\ (vc.h2 = One => vc.vf = Div(vc.L, vc.s))        \* H = 1/2: variance factor len_scale / rescale
+
+-----------------------------------------------------------------------------
+(*      G.  Matern with half-integer shape: exponential times polynomial   *)
+-----------------------------------------------------------------------------
+(* The documented Matern correlation  2^(1-nu)/Gamma(nu) * z^nu * K_nu(z),
+   z = sqrt(nu) * rescale * r / len_scale,  reduces for nu = p + 1/2 to
+       rho = exp(-z) * P_p(z),
+       P_p(z) = p!/(2p)! * SUM_{i=0..p} (p+i)! / (i! (p-i)!) * (2z)^(p-i)
+   (P_0 = 1: the Exponential model at the lag z; P_1 = 1 + z; P_2 = 1 + z + z^2/3).
+   P_p(z) is an exact rational on rational z; exp(-z) is supplied on replay by
+   the Exponential model, so the Matern functions at r = z * len_scale /
+   (rescale * sqrt(nu)) are decided as relations between implementation
+   outputs with TLC's rational factor.  Note the argument sqrt(nu) * h of the
+   documentation (not the sqrt(2 nu) * h of other parametrisations).         *)
+CONSTANTS HalfP, HalfZ
+
+RECURSIVE Fact(_)
+Fact(n) == IF n <= 1 THEN 1 ELSE n * Fact(n - 1)
+RECURSIVE MPSum(_, _, _)
+MPSum(p, z, i) ==
+  IF i > p THEN Zero
+  ELSE Add(Mul(Q(Fact(p + i), Fact(i) * Fact(p - i)), Pow(Mul(QI(2), z), p - i)), MPSum(p, z, i + 1))
+MaternPoly(p, z) == Mul(Q(Fact(p), Fact(2 * p)), MPSum(p, z, 0))
+
+InitHalf ==
+  /\ part = "maternhalf"
+  /\ \E p \in HalfP, z \in HalfZ :
+       vc = [kind |-> "maternhalf", p |-> p, nu |-> Q(2 * p + 1, 2), z |-> z, poly |-> MaternPoly(p, z)]
+  /\ D = None /\ inst = None /\ pc = None /\ abstract = None /\ ev = None
+  /\ pm = None /\ tab = None /\ isc = None
+
+HalfSound ==
+  /\ IsQ(vc.poly) /\ Leq(One, vc.poly)
+  /\ (vc.z = Zero => vc.poly = One)                           \* rho(0) = 1
+  /\ (vc.p = 0 => vc.poly = One)                              \* nu = 1/2: the Exponential model
+  /\ (vc.p = 1 => vc.poly = Add(One, vc.z))
+  /\ (vc.p = 2 => vc.poly = Add(Add(One, vc.z), Div(Mul(vc.z, vc.z), QI(3))))
+  (* three-term recurrence of the (reverse Bessel) polynomials, an independent derivation *)
+  /\ (vc.p >= 2 => vc.poly = Add(MaternPoly(vc.p - 1, vc.z),
+                                 Mul(Div(Mul(vc.z, vc.z), QI((2 * vc.p - 1) * (2 * vc.p - 3))),
+                                     MaternPoly(vc.p - 2, vc.z))))
 =============================================================================
